@@ -76,7 +76,10 @@ def W(quick, thorough, gcc_thorough=None, fuzz=None, enum=None):
 W_RULE = ("engine W: rapidcheck generates vectors of 26-byte records; each record decodes (all indices modulo, nothing "
           "filtered, 75% of calls aimed at an earlier-created expectation) into one operation of the profile's alphabet "
           "{create/release expectation, call, move/destroy/recreate mock, destroy/move/recreate sequence, watch/unwatch, "
-          "destroy/copy/move/assign deathwatched, push/pop tracer, swap reporter}; a generated teardown order follows. "
+          "destroy/copy/move/assign deathwatched, push/pop tracer, swap reporter}; a generated teardown order follows. Object slot 1 is a "
+          "non-movable mock class, the others movable; functions of arity 1, 2 and 12, const and overloaded; sequence objects are moved by "
+          "construction, by assignment to a fresh and to a moved-from object; any operation may run inside a catch handler or during stack "
+          "unwinding; side effects log, throw, call mocks recursively or construct a tracer. "
           "Every operation is applied to the real library and to an independent reference model and all observations "
           "(outcome, reports, OK reports, trace records, clause log, every is_satisfied/is_saturated/is_completed) are "
           "compared after every step. distinct = FNV-1a of the decoded operation list. ")
@@ -172,7 +175,8 @@ PROPS = {
                       t_job("t_asan", "E", (2, 25, 20, 3, ["--cap", "1500"]), (8, 150, 24, 3, ["--cap", "20000"]), "T-E(exhaustive schedules)"),
                       t_job("t_tsan_gcc", "A", (0, 0, 0, 0, []), (4, 2000, 60, 6, ["--reps", "3"]), "T-A(TSan,g++)")],
                 rule="engine T: rapidcheck generates programs of 2..8 threads x 1..6 operations over shared mocks and sequences "
-                     "(thread-owned expectations, monitors, private mocks) with a prologue; mode A runs them free under ThreadSanitizer with a "
+                     "(thread-owned expectations, monitors, private mocks whose expectation may be published and released by another thread, shared "
+                     "deathwatched objects whose requirements are registered and released by different threads) with a prologue; mode A runs them free under ThreadSanitizer with a "
                      "generated yield table, mode B under a generated schedule at critical-section granularity (custom recursive mutex parks threads), "
                      "mode E enumerates every lock-order schedule of tiny programs. Oracle: TSan silent; no lock leak; every observed result, report "
                      "and query value equals a sequential replay of the operations' events in lock (ticket) order. non-trivial = >= 2 threads touch the "
@@ -190,7 +194,8 @@ PROPS = {
     "C10": dict(jobs=[rc_job("m_rc", "M", (3, 10000, 70), (12, 60000, 100)), rc_job("m_rc_gcc", "M", (0, 0, 0), (4, 30000, 100), name="M(g++)"), py_job("compile/k_engine.py", "K", "K(replay only)", replay_only=True)],
                 rule="engine M: rapidcheck generates typed matcher trees of depth <= 4 over 11 parameter domains (int, int*, unique_ptr<int>, shared_ptr<int>, std::string, char const*, struct S, S*, int const*, and the user-defined pointer-likes Handle (implicitly constructible from nullptr, compared only Handle==Handle) and NHandle (nullptr_t comparisons, explicit operator bool), whose dereference while null is counted and is a disagreement by itself) built from the "
                      "library's own matchers and combinators (eq/ne/lt/le/gt/ge, _, ANY, !, *, any_of/all_of/none_of with 1-4 operands, MEMBER_IS, re with flags, plain values; duck-typed and explicitly typed) behind a "
-                     "make_matcher wrapper; every tree is evaluated through param_matches on every value of its domain and compared with an independent evaluator; algebraic laws; a sample goes through real mock calls. "
+                     "make_matcher wrapper; every tree is evaluated through param_matches on every value of its domain and compared with an independent evaluator; algebraic laws; named-lvalue laws (a matcher built from a named matcher leaves it unchanged); "
+                     "relational laws on doubles with NaN and on a partial order; a sample goes through real mock calls. "
                      "Plus the exhaustive scope of all int trees of depth <= 2. non-trivial = depth >= 2 with a combinator and a relational leaf whose operand lies inside the domain; distinct by tree hash.",
                 assumptions=["combinators with zero operands are not generated", "std::string operands on a char const* parameter only behind the documented null guards",
                              "MEMBER_IS operands are rvalues (an lvalue operand does not compile once used in an expectation: noted, outside C10's statement)"]),
@@ -198,25 +203,28 @@ PROPS = {
                       rc_job("r_rc_gcc", "R", (0, 0, 0), (4, 30000, 100), name="R(g++)"), py_job("compile/k_engine.py", "K", "K(replay only)", replay_only=True)],
                 rule="engine R: exhaustive small scope (every range over {1,2,3} up to length 4 x every element list up to length 3; thorough: 5 x 4) x 8 range matchers x element-list / container spellings x "
                      "{vector, init-list vector, list, deque, std::array, C array}, plus rapidcheck-generated longer ranges with overlapping element matchers; oracle = multiset / prefix / suffix / quantifier semantics and a "
-                     "nondeterministic first-fit simulation (asserted only when every choice path agrees). non-trivial = duplicate in range or list, length mismatch by one, or an empty side.",
+                     "nondeterministic first-fit simulation (asserted only when every choice path agrees); named containers are used for two matchers. non-trivial = duplicate in range or list, length mismatch by one, or an empty side.",
                 assumptions=["overlapping element matchers whose answer depends on the first-fit order are skipped (documented as 'may or may not match')",
                              "range_is_permutation with a single non-range element is not generated (does not compile: noted as a compile-time observation, see DESIGN.md 9)"]),
     "C20": dict(jobs=[rc_job("q_rc", "Q", (3, 8000, 70), (12, 40000, 100)), rc_job("q_rc_gcc", "Q", (0, 0, 0), (4, 20000, 100), name="Q(g++)"), py_job("compile/k_engine.py", "K", "K(replay only)", replay_only=True)],
                 rule="engine Q (C++20): 124 expectation sites over own task<T> / gen<Y,R> coroutine types (eager and lazy): 0-4 CO_YIELD / LR_CO_YIELD, CO_RETURN value / void / throwing, CO_THROW, SIDE_EFFECT, matchers, TIMES, "
                      "RT_TIMES, IN_SEQUENCE; a case = site + data + 1-3 calls (+ optional second sequenced expectation) + a generated interleaving of resume steps; oracle: matched / counted / sequence-checked / side effects at "
-                     "call time, then exactly the yields in order, then return / completion / exception at the resume point, per coroutine object. non-trivial = >= 2 yields and >= 2 coroutine objects of one expectation resumed interleaved, or a throwing completion.",
+                     "call time, then exactly the yields in order, then return / completion / exception at the resume point, per coroutine object; the locals "
+                     "named by plain clauses are overwritten after the expectation is written, those named by LR_ clauses get their values only then. non-trivial = >= 2 yields and >= 2 coroutine objects of one expectation resumed interleaved, or a throwing completion.",
                 assumptions=["clauses that can run after the call returned name _N only for reference parameters bound to caller-owned objects that outlive the coroutine (dangling by-value parameters are the caller's lifetime problem)",
                              "the expectation outlives the coroutine's evaluation of its clauses"]),
     "C09": dict(jobs=[py_job("params/p_engine.py", "P", "P(generated programs)")],
                 rule="engine P: Hypothesis generates translation units of 6-12 mock functions with arity 0..15 and an independently drawn passing mode per position (int, int&, int const&, int&&, int*, Tr by value/&/const&/&&, "
                      "unique_ptr by value/&&), const / overloaded / IMPLEMENT_MOCK over a generated interface, void / int / T& returns; the oracle lives in the generated clauses and driver (address identity, caller-visible writes, copy/move "
-                     "counters, positional tags, RETURN(_k) aliasing, plain-vs-LR_ capture); each TU is compiled with ASan/UBSan and run. evaluations = functions checked; non-trivial = arity >= 2 with >= 2 passing modes; distinct by (arity, modes, kind, return).",
+                     "counters, positional tags, RETURN(_k) aliasing, plain-vs-LR_ capture); the four declaration macros of every arity 0..15 occur in "
+                     "every quick run; each TU is compiled with ASan/UBSan and run. evaluations = functions checked; non-trivial = arity >= 2 with >= 2 passing modes; distinct by (arity, modes, kind, return).",
                 assumptions=["a generated TU that does not compile is a harness error, not a violation", "compilers: clang++ c++17 (quick); g++/clang++ x c++14/17/20 (thorough)"],
                 parallel=dict(quick=1, thorough=1)),
     "C19": dict(jobs=[py_job("compile/k_engine.py", "K", "K(compilers as SUT)")],
                 rule="engine K: (a) the 68 shipped compilation_errors/*.cpp with their own pass regex and exception rules; (b) macro namespace dump of every public header with TROMPELOEIL_LONG_MACROS (every macro defined by the "
                      "library must start with TROMPELOEIL_) and presence of every documented short macro without it; (c) Hypothesis-generated programs = signature kind x macro family x clause sequence (<= 6, any order): legal ones must compile "
-                     "with g++ and clang++ at C++14/17/20, single-fault ones must fail with the documented message of the violated rule row (45 rows), multi-fault ones with one of the applicable messages. non-trivial = >= 2 clauses; distinct by (signature, family, clause sequence) / cell.",
+                     "with g++ and clang++ at C++14/17/20, single-fault ones must fail with the documented message of the violated rule row (45 rows), multi-fault ones with one of the applicable messages; "
+                     "deterministic groups: ordered legal clause pairs, macro family x {short, long, _V} spellings, double call-limit misuse, MAKE_[CONST_]MOCKn arity 0..15. non-trivial = >= 2 clauses; distinct by (signature, family, clause sequence) / cell.",
                 assumptions=["only the documented message substring is matched", "generated programs are compiled against a precompiled header built from the tree under test; a sample and every disagreement are rechecked without it"],
                 parallel=dict(quick=1, thorough=1)),
 }
